@@ -120,6 +120,7 @@ def FStack.hasEmptyPrefix (s : FStack) (ns : Nat) : Bool :=
 def FStack.elementPrefix (env : Env) (s : FStack) (name : Nat) : Except XotError (Option Nat) :=
   let ns := env.nsOfName name
   if ns == Env.noNamespace then .ok none
+  else if ns == Env.xmlNamespace then .ok (some Env.xmlPrefix)
   else match elementPrefixByNamespace s.top ns with
     | some p => if p == Env.emptyPrefix then .ok none else .ok (some p)
     | none => .error (.missingPrefix ns)
@@ -127,6 +128,7 @@ def FStack.elementPrefix (env : Env) (s : FStack) (name : Nat) : Except XotError
 def FStack.attributePrefix (env : Env) (s : FStack) (name : Nat) : Except XotError (Option Nat) :=
   let ns := env.nsOfName name
   if ns == Env.noNamespace then .ok none
+  else if ns == Env.xmlNamespace then .ok (some Env.xmlPrefix)
   else match attributePrefixByNamespace s.top ns with
     | some p => .ok (some p)
     | none => .error (.missingPrefix ns)
